@@ -67,7 +67,7 @@ theorem markers_closed_when_empty {cfg : Cfg} {s0 s1 : State} {acts : List Actio
 
 /-! ### (7) values -/
 
-theorem evictAll_log (s : State) (st : Store) (ks : List Hash) :
+theorem evictAll_log_lv (s : State) (st : Store) (ks : List Hash) :
     ∃ l, (evictAll s st ks).log = l ++ s.log ∧
       ∀ h ∈ ks, ∀ e, st.lookup h = some e → .evict h e.conflict e.value 0 ∈ l ∧ .exit e.value ∈ l := by
   induction ks generalizing s with
@@ -152,8 +152,8 @@ theorem clr_step_desc {cfg : Cfg} {s s' : State} {a : Action} {t : Tid} {c : Boo
             · rename_i hord
               simp only [Option.some.injEq] at hs'; subst hs'
               have hord' : isShardOrder s.store k ks = true := by simpa using hord
-              exact .shard k ks (by simp [chan, evictAll_buf, evictAll_sendq]) hord'
-                (by simp [evictAll_store]) rfl
+              exact .shard k ks (by simp [chan, evictAll_buf_lv, evictAll_sendq_lv]) hord'
+                (by simp [evictAll_store_lv]) rfl
         · simp at hs'
       case clrEm c' =>
         obtain ⟨-, hs'⟩ := needNone_some hs'
@@ -220,7 +220,7 @@ theorem released_step {s0 s s' : State} {t : Tid} {c : Bool} (hrel : Released s0
       · exact Or.inl (by rw [hst]; exact h1)
       · exact Or.inr h1
   | shard k ks hchan hord hst hlog =>
-    obtain ⟨l2, hl2, hall⟩ := evictAll_log s s.store ks
+    obtain ⟨l2, hl2, hall⟩ := evictAll_log_lv s s.store ks
     refine ⟨l2 ++ l, by rw [hlog, hl2, hl]; simp, fun i hi hf => ?_, fun h e he => ?_⟩
     · rcases hitems i hi hf with h1 | ⟨h1, h2⟩
       · exact Or.inl (by rw [hchan]; exact h1)
